@@ -308,7 +308,7 @@ func runAtomicCase(c *vlib.Ctx, self string, in aIn, src string) map[string]any 
 	dataFile := filepath.Join(root, "payload")
 	must(os.WriteFile(dataFile, payload, 0o600))
 	rq := aChildReq{API: in.API, Path: target, Data: dataFile, Perm: in.Perm, Mode: in.Mode, Step: in.Step, How: in.How, Fsize: in.Fsize}
-	res := runChild(self, []string{"child", "atomic"}, []string{"TMPDIR=" + elsewhere, "HOME=" + root}, jsonOf(rq), elsewhere, 60*time.Second)
+	res := runChild(self, []string{"child", "atomic"}, []string{"TMPDIR=" + elsewhere, "HOME=" + root}, jsonOf(rq), elsewhere, 180*time.Second)
 	if res.TimedOut {
 		vlib.Fatal("atomic child timed out: %s", res.Stderr)
 	}
